@@ -47,6 +47,17 @@ def check(pid, tier):
             mod.deductive(ded, repo, tier)
         except Exception:
             checker_errors.append('deductive part crashed: ' + traceback.format_exc()[-1500:])
+    # vacuity guard against the ledger: an obligation discharged on the unchanged tree must still be GENERATED as long as
+    # its function is found and executed (a function that became unsupported/inapplicable is a demotion, not a fault)
+    have = set(o.name for o in ded.obligations)
+    for name in ledger:
+        if name in have:
+            continue
+        fn = name.split(': ')[0]
+        info = ded.functions.get(fn)
+        if info is not None and info.get('status') == 'ok' and not name.split(': ', 1)[1].startswith(('loop@', 'lemma')) \
+                and ': requires ' not in name and not name.split(': ', 1)[1].startswith('frame '):
+            checker_errors.append('ledger obligation no longer generated: %s' % name)
     bounded = None
     if getattr(mod, 'HAS_BOUNDED', True):
         bounded = core.run_bounded(pid, tier)
@@ -163,6 +174,25 @@ def check(pid, tier):
     return 0
 
 
+def make_ledger():
+    """regenerate ledger.json from the deductive parts on the current /repo (done deliberately, on the unchanged tree)"""
+    with open(os.path.join(HERE, 'MANIFEST.json')) as f:
+        man = json.load(f)
+    led = {}
+    for c in man['checks']:
+        pid = c['property_id']
+        mod = importlib.import_module('checks.' + pid)
+        if not hasattr(mod, 'deductive'):
+            continue
+        ded = core.Deductive()
+        mod.deductive(ded, core.repo_path(), 'quick')
+        led[pid] = {o.name: o.sha[:16] for o in ded.obligations if o.status == 'proved'}
+        print(pid, len(led[pid]), 'proved obligations;', sum(1 for o in ded.obligations if o.status != 'proved'), 'not proved')
+    with open(os.path.join(HERE, 'ledger.json'), 'w') as f:
+        json.dump(led, f, indent=0, sort_keys=True)
+    return 0
+
+
 def replay(path):
     with open(path) as f:
         doc = json.load(f)
@@ -230,6 +260,7 @@ def main():
     r = sub.add_parser('replay')
     r.add_argument('path')
     sub.add_parser('setup')
+    sub.add_parser('ledger')
     a = sub.add_parser('all')
     a.add_argument('--tier', default='quick')
     args = ap.parse_args()
@@ -239,6 +270,8 @@ def main():
         sys.exit(replay(args.path))
     if args.cmd == 'setup':
         sys.exit(setup())
+    if args.cmd == 'ledger':
+        sys.exit(make_ledger())
     if args.cmd == 'all':
         sys.exit(run_all(args.tier))
     ap.print_help()
